@@ -26,8 +26,10 @@ func main() { common.Main("C11", runC11) }
 
 // ---------------------------------------------------------------- operations
 // token syntax (no spaces; '=' and ';' never occur in a canonical value):
-//   S=<k>=<v>  G=<k>  D=<k>  A=<n0>=<M{..}>  P=<n0>=<M{..}>  F  R  X=<lo>=<hi>  L  I  Q=<n0>=<M{..}>
-//   T=<k1>=<v1>=<k2>=<v2>...   (map literal of the written pairs, evaluated from source; replaces the state)
+//
+//	S=<k>=<v>  G=<k>  D=<k>  A=<n0>=<M{..}>  P=<n0>=<M{..}>  F  R  X=<lo>=<hi>  L  I  Q=<n0>=<M{..}>
+//	T=<k1>=<v1>=<k2>=<v2>...   (map literal of the written pairs, evaluated from source; replaces the state)
+//
 // A: m = m + right, P: m = left + m, Q: Equals / Cmp with another map; the other map is built by
 // NewMapSize(n0) followed by Set of the listed pairs in the listed order.
 type op struct {
@@ -40,7 +42,9 @@ type op struct {
 	tok    string
 }
 
-func opS(k, v object.Object) op { return op{kind: 'S', k: k, v: v, tok: "S=" + Canon(k) + "=" + Canon(v)} }
+func opS(k, v object.Object) op {
+	return op{kind: 'S', k: k, v: v, tok: "S=" + Canon(k) + "=" + Canon(v)}
+}
 func opK(kind byte, k object.Object) op {
 	return op{kind: kind, k: k, tok: string(kind) + "=" + Canon(k)}
 }
@@ -1059,6 +1063,448 @@ func (e *explorer) literals() {
 	}
 }
 
+// ---------------------------------------------------------------- several bindings alive at once
+// A history is a list of operations that each make a NEW binding from earlier ones (binding i = variable vi):
+//
+//	T=<k>=<v>...      vN = { literal }
+//	S=<i>=<k>=<v>     vN = vi; vN[k] = v          D=<i>=<k>   vN = vi; del(vN[k])
+//	A=<i>=<j>         vN = vi + vj                R=<i>       vN = rest(vi)        X=<i>=<lo>=<hi>   vN = vi[lo:hi]
+//
+// After EVERY operation EVERY binding is read again (the operands, the parent of a range / rest view, earlier
+// results) and compared with the reference store, in which a binding never changes once made.
+type bop struct {
+	kind   byte
+	i, j   int
+	lo, hi int
+	k, v   object.Object
+	items  []object.Object
+	tok    string
+}
+
+func bT(items []object.Object) bop { return bop{kind: 'T', items: items, tok: opT(items).tok} }
+func bS(i int, k, v object.Object) bop {
+	return bop{kind: 'S', i: i, k: k, v: v, tok: fmt.Sprintf("S=%d=%s=%s", i, Canon(k), Canon(v))}
+}
+func bD(i int, k object.Object) bop {
+	return bop{kind: 'D', i: i, k: k, tok: fmt.Sprintf("D=%d=%s", i, Canon(k))}
+}
+func bA(i, j int) bop { return bop{kind: 'A', i: i, j: j, tok: fmt.Sprintf("A=%d=%d", i, j)} }
+func bR(i int) bop    { return bop{kind: 'R', i: i, tok: fmt.Sprintf("R=%d", i)} }
+func bX(i, lo, hi int) bop {
+	return bop{kind: 'X', i: i, lo: lo, hi: hi, tok: fmt.Sprintf("X=%d=%d=%d", i, lo, hi)}
+}
+
+func parseBop(t string) (bop, bool) {
+	f := strings.Split(t, "=")
+	num := func(x string) int {
+		n, err := strconv.Atoi(x)
+		if err != nil {
+			return -1
+		}
+		return n
+	}
+	switch t[0] {
+	case 'T':
+		o, ok := parseOp(t)
+		return bT(o.items), ok
+	case 'S':
+		if len(f) != 4 {
+			return bop{}, false
+		}
+		k, ok1 := ParseCanon(f[2])
+		v, ok2 := ParseCanon(f[3])
+		return bS(num(f[1]), k, v), ok1 && ok2 && num(f[1]) >= 0
+	case 'D':
+		if len(f) != 3 {
+			return bop{}, false
+		}
+		k, ok := ParseCanon(f[2])
+		return bD(num(f[1]), k), ok && num(f[1]) >= 0
+	case 'A':
+		return bA(num(f[1]), num(f[len(f)-1])), len(f) == 3 && num(f[1]) >= 0 && num(f[2]) >= 0
+	case 'R':
+		return bR(num(f[len(f)-1])), len(f) == 2 && num(f[1]) >= 0
+	case 'X':
+		if len(f) != 4 {
+			return bop{}, false
+		}
+		return bX(num(f[1]), num(f[2]), num(f[3])), num(f[1]) >= 0 && num(f[2]) >= 0 && num(f[3]) >= 0
+	}
+	return bop{}, false
+}
+
+func bopName(o bop) string {
+	if o.kind == 'T' {
+		return "bind-literal"
+	}
+	return "bind-" + string(o.kind)
+}
+
+// bindingsSrc runs the history in the real interpreter (one session, one statement per operation); after each
+// statement all variables are read. Returns per operation the list of state strings, or "P"/"ERR..." + stop.
+func bindingsSrc(ops []bop) [][]string {
+	st := eval.NewState()
+	st.Out = &strings.Builder{}
+	run := func(code string) (res object.Object, pan string) {
+		defer func() {
+			if x := recover(); x != nil {
+				pan = fmt.Sprint(x)
+			}
+		}()
+		r, _ := eval.EvalString(st, code, false)
+		return r, ""
+	}
+	litItems = nil
+	item := func(o object.Object) string {
+		litItems = append(litItems, o)
+		return fmt.Sprintf("ul(%d)", len(litItems)-1)
+	}
+	var out [][]string
+	for n, o := range ops {
+		var code string
+		v := fmt.Sprintf("v%d", n)
+		switch o.kind {
+		case 'T':
+			var parts []string
+			for i := 0; i+1 < len(o.items); i += 2 {
+				parts = append(parts, item(o.items[i])+":"+item(o.items[i+1]))
+			}
+			code = v + "={" + strings.Join(parts, ",") + "}"
+		case 'S':
+			code = fmt.Sprintf("%s=v%d;%s[%s]=%s", v, o.i, v, item(o.k), item(o.v))
+		case 'D':
+			code = fmt.Sprintf("%s=v%d;del(%s[%s])", v, o.i, v, item(o.k))
+		case 'A':
+			code = fmt.Sprintf("%s=v%d+v%d", v, o.i, o.j)
+		case 'R':
+			code = fmt.Sprintf("%s=rest(v%d)", v, o.i)
+		case 'X':
+			code = fmt.Sprintf("%s=v%d[%d:%d]", v, o.i, o.lo, o.hi)
+		}
+		if _, pan := run(code + ";0"); pan != "" {
+			return append(out, []string{"P"})
+		}
+		vars := make([]string, n+1)
+		for i := range vars {
+			vars[i] = fmt.Sprintf("v%d", i)
+		}
+		r, pan := run("[[" + strings.Join(vars, ",") + "]][0]")
+		if pan != "" || r == nil || r.Type() != object.ARRAY || len(object.Elements(r)) != n+1 {
+			return append(out, []string{"ERR:" + Canon(r)})
+		}
+		row := make([]string, n+1)
+		for i, e := range object.Elements(r) {
+			row[i] = stateStr(e)
+		}
+		out = append(out, row)
+	}
+	return out
+}
+
+// bindingsAPI: the same history through the Go API. Set / Delete mutate a *BigMap in place by contract, so the
+// copy-then-assign of the language is Clone() first (what eval does); Append, Rest, Range must not touch their operands.
+func bindingsAPI(ops []bop) (out [][]string) {
+	var objs []object.Object
+	defer func() {
+		if x := recover(); x != nil {
+			out = append(out, []string{"P"})
+		}
+	}()
+	private := func(m object.Object) object.Map {
+		if b, ok := m.(*object.BigMap); ok {
+			return b.Clone()
+		}
+		return m.(object.Map)
+	}
+	for _, o := range ops {
+		var nw object.Object
+		switch o.kind {
+		case 'T':
+			m := object.NewMapSize(len(o.items) / 2)
+			for i := 0; i+1 < len(o.items); i += 2 {
+				m = m.Set(o.items[i], o.items[i+1])
+			}
+			nw = m
+		case 'S':
+			nw = private(objs[o.i]).Set(o.k, o.v)
+		case 'D':
+			nw, _ = private(objs[o.i]).Delete(o.k)
+		case 'A':
+			nw = objs[o.i].(object.Map).Append(objs[o.j].(object.Map))
+		case 'R':
+			nw = object.Rest(objs[o.i])
+		case 'X':
+			nw = object.Range(objs[o.i], int64(o.lo), int64(o.hi))
+		}
+		objs = append(objs, nw)
+		row := make([]string, len(objs))
+		for i, e := range objs {
+			row[i] = stateStr(e)
+		}
+		out = append(out, row)
+	}
+	return out
+}
+
+// bindingsRef: the reference store; nil = outside the little language (bad index, nil rest, range out of bounds).
+func bindingsRef(ops []bop) [][]string {
+	var st []*refMap
+	var out [][]string
+	for _, o := range ops {
+		var nw *refMap
+		ok := func(i int) bool { return i >= 0 && i < len(st) }
+		switch o.kind {
+		case 'T':
+			nw = &refMap{}
+			for i := 0; i+1 < len(o.items); i += 2 {
+				nw.set(o.items[i], o.items[i+1])
+			}
+		case 'S':
+			if ok(o.i) {
+				nw = st[o.i].clone()
+				nw.set(o.k, o.v)
+			}
+		case 'D':
+			if ok(o.i) {
+				nw = st[o.i].clone()
+				nw.del(o.k)
+			}
+		case 'A':
+			if ok(o.i) && ok(o.j) {
+				nw = st[o.i].clone()
+				for x := range st[o.j].ks {
+					nw.set(st[o.j].ks[x], st[o.j].vs[x])
+				}
+			}
+		case 'R':
+			if ok(o.i) && len(st[o.i].ks) > 1 {
+				c := st[o.i].clone()
+				nw = &refMap{ks: c.ks[1:], vs: c.vs[1:]}
+			}
+		case 'X':
+			if ok(o.i) && o.lo <= o.hi && o.hi <= len(st[o.i].ks) {
+				c := st[o.i].clone()
+				nw = &refMap{ks: c.ks[o.lo:o.hi], vs: c.vs[o.lo:o.hi]}
+			}
+		}
+		if nw == nil {
+			return out
+		}
+		st = append(st, nw)
+		row := make([]string, len(st))
+		for i, r := range st {
+			row[i] = r.canon()
+		}
+		out = append(out, row)
+	}
+	return out
+}
+
+func (e *explorer) bindings(ops []bop) {
+	c := e.c
+	toks := make([]string, len(ops))
+	for i, o := range ops {
+		toks[i] = o.tok
+	}
+	ref := bindingsRef(ops)
+	if len(ref) != len(ops) {
+		return // generator error: outside the language
+	}
+	for _, mode := range []string{"src", "api"} {
+		var got [][]string
+		if mode == "src" {
+			got = bindingsSrc(ops)
+		} else {
+			got = bindingsAPI(ops)
+		}
+		c.Evals += len(ops) * (len(ops) + 1) / 2
+		var obs []string
+		stop := false
+		for n := range got {
+			cs := "BIND " + mode + " " + strings.Join(toks[:n+1], " ")
+			row := got[n]
+			obs = append(obs, strings.Join(row, ";"))
+			if (len(row) == 1 && (row[0] == "P" || strings.HasPrefix(row[0], "ERR"))) || len(row) != n+1 {
+				sig := "bindings-panic:"
+				if row[0] != "P" {
+					sig = "bindings-not-supported:"
+				}
+				c.Fail(sig+bopName(ops[n]), cs, strings.Join(row, ";"))
+				stop = true
+				break
+			}
+			for i, sv := range row {
+				if len(sv) < 1 || sv[1:] == ref[n][i] {
+					continue
+				}
+				if i < n {
+					c.Fail("earlier-binding-changed:"+bopName(ops[n]), cs,
+						fmt.Sprintf("after v%d (%s) the binding v%d reads %s, it was made as %s", n, ops[n].tok, i, sv[1:], ref[n][i]))
+				} else {
+					c.Fail("differs-from-reference-map:"+bopName(ops[n]), cs, fmt.Sprintf("v%d reads %s, reference %s", n, sv[1:], ref[n][i]))
+				}
+				stop = true
+			}
+			if strings.HasPrefix(row[n], "p") {
+				c.Fail("small-map-behind-pointer:"+bopName(ops[n]), cs, row[n])
+			}
+			if stop {
+				break
+			}
+		}
+		c.Case("BIND "+mode+" "+strings.Join(toks[:len(obs)], " "), strings.Join(obs, " "))
+		c.Count("bindings:" + mode)
+	}
+	c.NonTrivial("bind|" + strings.Join(toks, " "))
+}
+
+func intLit(from, to int) []object.Object {
+	var items []object.Object
+	for i := from; i <= to; i++ {
+		items = append(items, object.Integer{Value: int64(i)}, object.Integer{Value: int64(i)})
+	}
+	return items
+}
+
+// bindingHistories: a base map of every size around the threshold; a left operand that is the base itself, a
+// range / rest view of it, or a copy grown or shrunk by index assignment / del (spare capacity in the backing
+// array); then TWO merges from that same left operand with right operands whose keys are all greater / all
+// smaller / inside / already present / several / none; then a view and an assignment on the first result.
+func (e *explorer) bindingHistories() {
+	c := e.c
+	I := func(n int) object.Object { return object.Integer{Value: int64(n)} }
+	type lop struct {
+		name string
+		mk   func(n int) []bop // operations after v0 = base (n pairs, keys 10,20,..); the left operand is the last binding made
+	}
+	key := func(i int) int { return 10 * i }
+	base := func(n int) []object.Object {
+		var items []object.Object
+		for i := 1; i <= n; i++ {
+			items = append(items, I(key(i)), I(i))
+		}
+		return items
+	}
+	lefts := []lop{
+		{"itself", func(n int) []bop { return nil }},
+		{"range-prefix", func(n int) []bop { return []bop{bX(0, 0, n-2)} }},
+		{"range-prefix-1", func(n int) []bop { return []bop{bX(0, 0, n-1)} }},
+		{"range-middle", func(n int) []bop { return []bop{bX(0, 1, n-1)} }},
+		{"rest", func(n int) []bop { return []bop{bR(0)} }},
+		{"rest-rest-prefix", func(n int) []bop { return []bop{bR(0), bX(1, 0, n-2)} }},
+		{"grown-last", func(n int) []bop { return []bop{bS(0, I(key(n)+5), I(0))} }},
+		{"grown-middle", func(n int) []bop { return []bop{bS(0, I(15), I(0))} }},
+		{"grown-twice", func(n int) []bop { return []bop{bS(0, I(key(n)+5), I(0)), bS(1, I(key(n)+6), I(0))} }},
+		{"shrunk", func(n int) []bop { return []bop{bD(0, I(key(n)))} }},
+		{"updated", func(n int) []bop { return []bop{bS(0, I(key(1)), I(0))} }},
+		{"merged", func(n int) []bop { return []bop{bT([]object.Object{I(key(n) + 3), I(0)}), bA(0, 1)} }},
+	}
+	rights := func(n int) [][]object.Object {
+		hi := key(n) + 50
+		return [][]object.Object{
+			{I(hi), I(1)}, {I(hi + 1), I(2)}, {I(hi), I(1), I(hi + 2), I(3)}, // all greater
+			{I(1), I(1)}, {I(25), I(1)}, {I(key(n) - 5), I(1)}, // smaller / inside
+			{I(key(1)), I(9)}, {I(key(n)), I(9)}, {I(key(n - 1)), I(9), I(hi), I(1)}, // present
+			{}, {S("a"), I(1)}, {Fl(float64(key(n)) + 0.5), I(1)},
+		}
+	}
+	sizes := []int{4, 5, 6, 7}
+	if c.Thorough() {
+		sizes = []int{2, 3, 4, 5, 6, 7, 8, 9, 12}
+	}
+	for _, n := range sizes {
+		rs := rights(n)
+		for _, l := range lefts {
+			pre := l.mk(n)
+			if n < 3 && (strings.HasPrefix(l.name, "range") || strings.HasPrefix(l.name, "rest")) {
+				continue
+			}
+			for a := 0; a < len(rs); a++ {
+				for b := 0; b < len(rs); b++ {
+					if !c.Thorough() && a != b && (a+b)%4 != 0 && a > 2 && b > 2 {
+						continue // quick: every pair involving an all-greater operand, a quarter of the others
+					}
+					ops := append([]bop{bT(base(n))}, pre...)
+					left := len(ops) - 1
+					ops = append(ops, bT(rs[a]), bT(rs[b]))
+					ra, rb := len(ops)-2, len(ops)-1
+					ops = append(ops, bA(left, ra), bA(left, rb)) // two merges from the same left operand
+					first := len(ops) - 2
+					ops = append(ops, bA(first, rb), bS(first, I(key(n)+70), I(7)))
+					e.bindings(ops)
+				}
+			}
+		}
+	}
+	// the two published witnesses of an in-place merge, literally
+	e.bindings([]bop{bT(intLit(1, 7)), bX(0, 0, 5), bT([]object.Object{I(9), I(9)}), bA(1, 2)})
+	e.bindings([]bop{bT(intLit(1, 5)), bS(0, I(6), I(6)), bT([]object.Object{I(7), I(7)}), bT([]object.Object{I(8), I(8)}), bA(1, 2), bA(1, 3)})
+	// random histories
+	pool := musts("I1", "F3ff0000000000000", "I2", "I3", "I4", "I5", "I6", "I7", "I8", "I9", "S61", "N", "A[I1]", "F4004000000000000", "I50", "I60")
+	cnt, length := 150, 9
+	if c.Thorough() {
+		cnt, length = 6000, 12
+	}
+	for h := 0; h < cnt && len(c.Failures) < 2000; h++ {
+		var ops []bop
+		var sizes []int // reference sizes, to stay inside the language
+		refs := func() [][]string { return bindingsRef(ops) }
+		_ = refs
+		for len(ops) < length {
+			var o bop
+			n := len(ops)
+			pick := func() int { return c.R.Intn(n) }
+			switch x := c.R.Intn(100); {
+			case n == 0 || x < 12:
+				var items []object.Object
+				k := c.R.Intn(9)
+				if c.R.Pct(50) { // increasing integer keys: the usual accumulation pattern
+					st := c.R.Intn(4)
+					for j := 0; j < k; j++ {
+						items = append(items, I(st+2*j), I(j))
+					}
+				} else {
+					for j := 0; j < k; j++ {
+						items = append(items, pool[c.R.Intn(len(pool))], I(j))
+					}
+				}
+				o = bT(items)
+			case x < 30:
+				o = bS(pick(), pool[c.R.Intn(len(pool))], I(c.R.Intn(5)))
+			case x < 38:
+				o = bD(pick(), pool[c.R.Intn(len(pool))])
+			case x < 70:
+				o = bA(pick(), pick())
+			case x < 80:
+				i := pick()
+				if sizes[i] < 2 {
+					continue
+				}
+				o = bR(i)
+			default:
+				i := pick()
+				lo := c.R.Intn(sizes[i] + 1)
+				hi := lo + c.R.Intn(sizes[i]-lo+1)
+				if c.R.Pct(60) && sizes[i] > 1 {
+					lo, hi = 0, sizes[i]-1-c.R.Intn(2)
+				}
+				o = bX(i, lo, hi)
+			}
+			ops = append(ops, o)
+			r := bindingsRef(ops)
+			if len(r) != len(ops) {
+				ops = ops[:len(ops)-1]
+				continue
+			}
+			sizes = append(sizes, strings.Count(r[len(r)-1][len(ops)-1], ":"))
+		}
+		e.bindings(ops)
+	}
+}
+
+func S(s string) object.Object   { return object.String{Value: s} }
+func Fl(f float64) object.Object { return object.Float{Value: f} }
+
 func must(s string) object.Object {
 	o, ok := ParseCanon(s)
 	if !ok {
@@ -1098,7 +1544,9 @@ func runC11(c *Ctx) {
 	reg("uw", func() object.Object { return injV })
 	reg("uo", func() object.Object { return injO })
 	if err := object.CreateFunction(object.Extension{Name: "ul", MinArgs: 1, MaxArgs: 1, ArgTypes: []object.Type{object.INTEGER},
-		Callback: func(_ any, _ string, args []object.Object) object.Object { return litItems[args[0].(object.Integer).Value] }}); err != nil {
+		Callback: func(_ any, _ string, args []object.Object) object.Object {
+			return litItems[args[0].(object.Integer).Value]
+		}}); err != nil {
 		panic(err)
 	}
 	e := &explorer{c: c, doSource: true}
@@ -1122,10 +1570,12 @@ func runC11(c *Ctx) {
 	e.literalCase(musts("I1", "S61", "I2", "S62", "I3", "S63", "I4", "S64", "I1", "S7a"), true)
 	e.literalCase(musts("S6b", "I1", "S6b", "I2", "S6b", "I3", "S6b", "I4", "S6b", "I5"), true)
 	e.literals()
+	// several bindings alive at once: views, grown copies, two merges from one operand, everything re-read
+	e.bindingHistories()
 	// keys: 5 (quick) or 7 (thorough) distinct key classes of mixed types
 	keys := musts("I1", "F3ff8000000000000", "S61", "N", "A[I1]")
 	probes := musts("F3ff0000000000000", "I9") // 1.0: same class as 1; 9: never stored... unless set through it
-	maxStates := 5000 // the quick universe has 1348 reachable states, the thorough one 9220: the caps only bound a broken tree
+	maxStates := 5000                          // the quick universe has 1348 reachable states, the thorough one 9220: the caps only bound a broken tree
 	if c.Thorough() {
 		maxStates = 40000
 		keys = append(keys, musts("B1", "I2")...)
@@ -1169,6 +1619,19 @@ func runC11(c *Ctx) {
 // replay: "MAP <n0> <path|-> <op>"
 func c11Replay(e *explorer, cs string) {
 	f := strings.Fields(cs)
+	if len(f) >= 3 && f[0] == "BIND" {
+		var ops []bop
+		for _, t := range f[2:] {
+			o, ok := parseBop(t)
+			if !ok {
+				fmt.Println("bad op", t)
+				return
+			}
+			ops = append(ops, o)
+		}
+		e.bindings(ops)
+		return
+	}
 	if len(f) != 4 || f[0] != "MAP" {
 		fmt.Println("bad replay case")
 		return
